@@ -5,6 +5,8 @@ import (
 	"fmt"
 	"io"
 	"net"
+	"net/http"
+	"sort"
 	"strconv"
 	"strings"
 	"sync"
@@ -17,6 +19,7 @@ import (
 	"verif/harness/internal/vf"
 
 	"github.com/spf13/afero"
+	httpscenario "github.com/yandex/pandora/components/guns/http_scenario"
 	"github.com/yandex/pandora/core"
 	"github.com/yandex/pandora/core/aggregator/netsample"
 	"github.com/yandex/pandora/core/engine"
@@ -77,19 +80,96 @@ func (a *recAgg) Samples() []samp {
 	return append([]samp(nil), a.samples...)
 }
 
+// ammoStep is one step of a scenario ammo as the provider handed it to the gun.
+type ammoStep struct {
+	Name  string
+	Sleep time.Duration
+}
+
+// ammoRec is what one Acquire of the real provider returned (copied at once: the
+// gun owns the ammo afterwards).
+type ammoRec struct {
+	Known   bool // the ammo is the http/scenario gun's exported ammo type
+	Type    string
+	Name    string
+	MinWait time.Duration
+	Steps   []ammoStep
+}
+
+// recProvider passes everything through to the real provider and records the
+// scenario every Acquire hands out.
+type recProvider struct {
+	core.Provider
+	mu       sync.Mutex
+	acquired []ammoRec
+}
+
+func (p *recProvider) Acquire() (core.Ammo, bool) {
+	a, ok := p.Provider.Acquire()
+	if !ok {
+		return a, ok
+	}
+	rec := ammoRec{Type: fmt.Sprintf("%T", a)}
+	if sc, isSc := a.(*httpscenario.Scenario); isSc && sc != nil {
+		rec.Known, rec.Name, rec.MinWait = true, sc.Name, sc.MinWaitingTime
+		for _, r := range sc.Requests {
+			rec.Steps = append(rec.Steps, ammoStep{Name: r.Name, Sleep: r.Sleep})
+		}
+	}
+	p.mu.Lock()
+	p.acquired = append(p.acquired, rec)
+	p.mu.Unlock()
+	return a, ok
+}
+
+func (p *recProvider) Acquired() []ammoRec {
+	p.mu.Lock()
+	defer p.mu.Unlock()
+	return append([]ammoRec(nil), p.acquired...)
+}
+
 // runResult is the recorded history of one run.
 type runResult struct {
 	T0      time.Time // taken before the engine was started
 	Recs    []target.Rec
 	Samples []samp
+	Ammo    []ammoRec // in the order of Acquire
 	YAML    string
 }
 
-func toResp(rep si.Reply) target.Resp {
+// toResp turns a reply of the world into a scripted response. keep: how much of the
+// body is transferred before the connection is dropped when the reply is cut short
+// (reduced modulo the length of the body, so the transfer is never complete).
+func toResp(rep si.Reply, keep int) target.Resp {
 	if rep.Closed {
 		return target.Resp{Hijack: func(c net.Conn, rw io.ReadWriter) {}}
 	}
+	if rep.Cut && len(rep.Body) > 0 {
+		body := rep.Body
+		if keep < 0 {
+			keep = -keep
+		}
+		sent := body[:keep%len(body)]
+		var sb strings.Builder
+		fmt.Fprintf(&sb, "HTTP/1.1 %d %s\r\n", rep.Status, http.StatusText(rep.Status))
+		for _, k := range sortedHeaderNames(rep.Header) {
+			fmt.Fprintf(&sb, "%s: %s\r\n", k, rep.Header[k])
+		}
+		fmt.Fprintf(&sb, "Content-Length: %d\r\n\r\n%s", len(body), sent)
+		raw := sb.String()
+		// the target flushes what was written and closes the connection when Hijack returns
+		return target.Resp{Hijack: func(c net.Conn, rw io.ReadWriter) { _, _ = io.WriteString(rw, raw) }}
+	}
 	return target.Resp{Status: rep.Status, Header: rep.Header, Body: []byte(rep.Body)}
+}
+
+func sortedHeaderNames(h map[string]string) []string {
+	names := make([]string, 0, len(h))
+	for k := range h {
+		names = append(names, k)
+	}
+	sort.Strings(names)
+	return names
 }
 
 // reqName is the request definition a recorded request belongs to: by
@@ -148,6 +228,8 @@ func runProgram(prog *si.Program, shots, instances int, keepAlive bool, script f
 	}
 	agg := &recAgg{}
 	conf.Pools[0].Aggregator = agg
+	prov := &recProvider{Provider: conf.Pools[0].Provider}
+	conf.Pools[0].Provider = prov
 	eng := engine.New(pand.NopLog(), pand.Metrics(), conf)
 	res := &runResult{YAML: string(yml), T0: time.Now()}
 	var runErr error
@@ -163,6 +245,7 @@ func runProgram(prog *si.Program, shots, instances int, keepAlive bool, script f
 	}
 	res.Recs = tg.Records()
 	res.Samples = agg.Samples()
+	res.Ammo = prov.Acquired()
 	tg.Reset(nil)
 	return res, nil
 }
